@@ -8,7 +8,7 @@
 enum CellState : uint8_t { CS_UNWRITTEN = 0, CS_FILL = 1, CS_VALUE = 2, CS_UNKNOWN = 3 };
 struct Cell { uint8_t st = CS_UNWRITTEN; uint8_t wmask = 0; /* ranks that wrote it since the last documented synchronisation */ uint8_t bb = 0; /* burst-buffer fragment: ranks whose log may still hold a write to it */ uint8_t bbx = 0; /* ... ranks whose flush of such a write is not yet ordered (barrier / collective flush) before the other ranks' next calls */ uint8_t bbpend = 0; /* ... number of pending nonblocking put requests covering it */ long long v = 0; };
 
-struct MAtt { std::string name; int type = NC_INT; std::vector<long long> v; };
+struct MAtt { std::string name; int type = NC_INT; std::vector<long long> v; int unk = -1; /* index of an element whose stored value is unspecified (it was out of range when put: NC_ERANGE) */ };
 struct MDim { std::string name; long long len = 0; };   // len == 0: the unlimited dimension
 struct MVar {
     std::string name; int type = NC_INT; std::vector<int> dimids; std::vector<MAtt> atts;
